@@ -178,7 +178,7 @@ def gen_case(seed, i, mode='main'):
                     top = max([m['version']] + [h['version'] for h in state['history'].get(m['name'], [])])
                     nm = _reversion(r, cur, mi, top + 1)
                 alts[m['name']] = nm
-            op['mid'] = {'at': r.choice((0, 1, 2, 3, 4, 5, 6, 8, 10, 13, 17)), 'when': r.choice(('stat', 'open', 'any')),
+            op['mid'] = {'at': r.choice((0, 1, 2, 3, 4, 5, 6, 8, 10, 13, 17)), 'when': r.choice(('stat', 'open', 'any', 'stat_after_open')),
                          'edit': {'op': 'rewrite_accessed', 'alts': alts, 'dt_ms': r.choice(DTS_MS)}}
             op['mid_spec_after'] = True
             ops.append(op)
@@ -416,13 +416,20 @@ class History(object):
                 landed = {'done': False}
                 if mid:
                     def hook(kind, path, idx, mid=mid, landed=landed):
-                        if not landed['done'] and idx >= mid['at'] and mid.get('when', 'any') in ('any', kind):
+                        when = mid.get('when', 'any')
+                        hit = when == 'any' or when == kind or (when == 'stat' and kind == 'stat_after_open')
+                        if when == 'stat_after_open':
+                            hit = kind == 'stat_after_open'     # wherever it comes, not before a given index
+                        elif idx < mid['at']:
+                            hit = False
+                        if not landed['done'] and hit:
                             if self.apply_edit(mid['edit'], accessed=path):
                                 landed['done'] = True
                                 self.probes['edit_landed_inside_request'] += 1
                                 self.fault('edit_during_request')
                     self.fs.hook = hook
                 io0 = self.fs.calls
+                self.fs.opened.clear()
                 got = ask(server, self.root, req)
                 self.fs.hook = None
                 nio = self.fs.calls - io0
@@ -445,7 +452,7 @@ class History(object):
                     self.probes['request_after_edit_compared'] += 1
                     if req.get('indirect'):
                         self.probes['edited_module_reached_indirectly'] += 1
-                if got != exp:
+                if got != exp and 'RecursionError' not in (got[1], exp[1]):
                     self.vios.append({
                         'sig': 'C09/stale/%s' % req['kind'],
                         'detail': 'operation %d: %s %r at %r after %d edits since the previous request: long-lived project answers %s, '
